@@ -66,6 +66,12 @@ PointLaws ==
       /\ \A k \in 1..Len(cfg.cvs) : LawNearest(cfg.cvs[k], x[k])
       /\ LawPerAxisNearest(cfg.f, cfg.cvs, x)
       /\ (AllNearest(cfg.schemes) => q.ans = q.nans)
+      \* interpolation commutes with an affine change of coordinates (grid and point moved and scaled together): the
+      \* harness uses this to replay every case far from the origin with fine cells (coordinates float32 cannot hold)
+      /\ ((Len(cfg.cvs) = 1 /\ Defined(cfg.cvs, cfg.schemes, x)) =>
+             LET A(v) == QAdd(<<3, 1>>, QMul(<<1, 2>>, v))
+             IN  PerAxis(cfg.f, [k \in 1..Len(cfg.cvs) |-> [i \in 1..Len(cfg.cvs[k]) |-> A(cfg.cvs[k][i])]], cfg.schemes,
+                         [k \in 1..Len(x) |-> A(x[k])]) = q.ans)
       /\ ((cfg.fname = "affine" /\ AllLinear(cfg.schemes)) => LawAffine(cfg.poly, cfg.cvs, x))
 ResampleLaws ==
   /\ \A t \in 1..GSize(cfg.tcvs) : RefinesPerAxis(cfg.f, cfg.cvs, cfg.schemes, NodeOf(cfg.tcvs, t - 1))
